@@ -11,7 +11,7 @@ func ProfileFull(avoid map[string]string) *Profile {
 		MaxServices: 2, MaxMethods: 3, Transport: true, BasePaths: true, OddBasePaths: true, DefaultPaths: true, Headers: true,
 		RepeatedQuery: true, QueryOnBody: true, SharedRequest: true,
 		Stratified: true, Features: Features(AllFeatures...), MultiFeature: true, AnnotatedNested: true, AnnotateAnyCard: true, MultiWordChild: true,
-		Rules: true, Examples: true, HostileText: true, LowerCaseTypes: true, TrailingSlash: true, Avoid: avoid}
+		Rules: true, Examples: true, HostileText: true, LowerCaseTypes: true, TrailingSlash: true, ModelsLayout: true, Avoid: avoid}
 }
 
 // ProfilePlain has no JSON-mapping annotations: plain proto3 JSON everywhere.
@@ -28,7 +28,7 @@ func ProfileCodec(avoid map[string]string) *Profile {
 		Optionals: true, Repeateds: true, Enums: true, Timestamps: true, MessageFields: true,
 		MaxServices: 1, MaxMethods: 5, Transport: true, BasePaths: true, QueryOnBody: false,
 		Stratified: true, Features: Features(AllFeatures...), MultiFeature: false, AnnotatedNested: true, AnnotateAnyCard: true, MultiWordChild: true,
-		CompanionPackage: true, LowerCaseTypes: true, Avoid: avoid}
+		CompanionPackage: true, LowerCaseTypes: true, ModelsLayout: true, Avoid: avoid}
 }
 
 // ProfileMatrix is the compile matrix: every annotation on every cardinality it is accepted
@@ -119,7 +119,7 @@ func ProfileContract(avoid map[string]string) *Profile {
 	return &Profile{Name: "contract", MaxDataMessages: 3, MaxFields: 4, Nested: true, Maps: true, Oneofs: true,
 		Optionals: true, Repeateds: true, Enums: true, Timestamps: true, MessageFields: true,
 		MaxServices: 2, MaxMethods: 3, Transport: true, BasePaths: true, Headers: true, QueryOnBody: true,
-		Stratified: true, Features: Features(AllFeatures...), AnnotatedNested: true, AnnotateAnyCard: true, MultiWordChild: true, ContractStrict: true, WrapperSiblings: true, Avoid: avoid}
+		Stratified: true, Features: Features(AllFeatures...), AnnotatedNested: true, AnnotateAnyCard: true, MultiWordChild: true, ContractStrict: true, WrapperSiblings: true, ModelsLayout: true, Avoid: avoid}
 }
 
 // ProfileInterop: cross-language calls (TypeScript <-> Go).
